@@ -44,7 +44,10 @@ def c11(drv, prop, tier, seed):
     extra = {}
     if tier == "thorough":
         m = miri(drv, seed)
-        results.append(("miri/own", m))
+        if isinstance(m, dict):
+            m = [m]
+        for k, r in enumerate(m):
+            results.append(("miri/%d" % k, r))
     return drv.finish(prop, tier, seed, t0, results, extra_cov=extra, assumptions=[
         "a panic, failed assertion, arithmetic-overflow trap or out-of-bounds index surfaces as an unwinding panic that catch_unwind observes (both profiles are built with panic=unwind)",
         "non-termination is bounded only by a wall-clock watchdog whose firing is reported as inconclusive, not as a violation",
@@ -52,36 +55,55 @@ def c11(drv, prop, tier, seed):
     ])
 
 
-def miri(drv, seed):
-    """Small single-threaded pass of the hostile-argument workload under Miri (undefined behaviour in the
-    few unsafe casts, plus debug assertions and overflow checks at opt-level 0)."""
-    out = os.path.join(drv.OUTDIR, "C11-miri.json")
+def miri(drv, seed, nproc=8):
+    """Single-threaded passes of the (reduced) hostile-argument workload under Miri, one process per
+    seed: undefined behaviour in the few unsafe casts, plus debug assertions and overflow checks at
+    opt-level 0.  Results of the processes are merged."""
     os.makedirs(drv.OUTDIR, exist_ok=True)
-    if os.path.exists(out):
-        os.remove(out)
     env = dict(drv.ENV)
     env["MIRIFLAGS"] = "-Zmiri-disable-isolation"
     env["CARGO_TARGET_DIR"] = os.path.join(drv.TARGET, "miri")
-    cmd = ["cargo", "+nightly", "miri", "run", "--offline", "-p", "props", "--", "run", "C11", "--tier", "miri", "--seed",
-           str(seed), "--threads", "1", "--out", out]
-    try:
-        p = subprocess.run(cmd, cwd=drv.HARNESS, env=env, stdout=subprocess.PIPE, stderr=subprocess.STDOUT, text=True,
-                           timeout=5400)
-    except subprocess.TimeoutExpired:
-        return {"_failed": "miri watchdog fired — inconclusive"}
-    if p.returncode != 0 or not os.path.exists(out):
-        tail = p.stdout[-3000:]
-        if "Undefined Behavior" in tail:
-            # a Miri UB report aborts the interpreter: surface it as a violation with the report as detail
-            return {"evaluations": 1, "violations": [{"key": "miri|undefined_behavior", "detail": tail, "case": {}, "count": 1}]}
-        return {"_failed": "miri run exited %s: %s" % (p.returncode, tail[-1500:])}
-    return json.load(open(out))
+    base = ["cargo", "+nightly", "miri", "run", "--offline", "-p", "props", "--"]
+    p = subprocess.run(base + ["list"], cwd=drv.HARNESS, env=env, stdout=subprocess.PIPE, stderr=subprocess.STDOUT, text=True)
+    if p.returncode != 0:
+        return {"_failed": "miri build/list failed: %s" % p.stdout[-1500:]}
+
+    def one(k):
+        out = os.path.join(drv.OUTDIR, "C11-miri-%d.json" % k)
+        if os.path.exists(out):
+            os.remove(out)
+        cmd = base + ["run", "C11", "--tier", "miri", "--seed", str(seed * 100 + k), "--threads", "1", "--out", out]
+        try:
+            p = subprocess.run(cmd, cwd=drv.HARNESS, env=env, stdout=subprocess.PIPE, stderr=subprocess.STDOUT, text=True, timeout=3600)
+        except subprocess.TimeoutExpired:
+            return {"_failed": "miri watchdog fired — inconclusive"}
+        if p.returncode != 0 or not os.path.exists(out):
+            tail = p.stdout[-3000:]
+            if "Undefined Behavior" in tail:
+                # a Miri UB report aborts the interpreter: surface it as a violation with the report as detail
+                return {"evaluations": 1, "violations": [{"key": "miri|undefined_behavior", "detail": tail, "case": {}, "count": 1}]}
+            return {"_failed": "miri run exited %s: %s" % (p.returncode, tail[-1500:])}
+        r = json.load(open(out))
+        r["mandatory_missing"] = []
+        r["classes"] = {"miri_calls": r.get("classes", {}).get("calls", 0)}
+        return r
+
+    from concurrent.futures import ThreadPoolExecutor
+    with ThreadPoolExecutor(nproc) as ex:
+        rs = list(ex.map(one, range(nproc)))
+    return rs
 
 
-SPECIAL = {"C11": c11}
+def c01(drv, prop, tier, seed):
+    import ct
+    return ct.c01(drv, prop, tier, seed)
+
+
+SPECIAL = {"C11": c11, "C01": c01}
 
 
 def setup(drv):
     drv.cargo_build("vrel")
     drv.cargo_build("vdbg")
+    drv.cargo_build("vrel", package="ct")
     return 0
